@@ -28,9 +28,9 @@ import (
 
 func enumLen(tier string) int {
 	if tier == "thorough" {
-		return 4
+		return 5
 	}
-	return 3
+	return 4
 }
 
 func tier() string {
@@ -47,7 +47,7 @@ func main() {
 	}
 	r := evidence.New("C17", "fault_enumeration")
 	r.Rule("enum phase: EVERY server-behaviour script over the 8 outcome classes {401 Basic, 401 Bearer, retryable status 408/429/5xx, 429+Retry-After, timeout, other transport error, non-retryable status, success} " +
-		"of length 1..L (L=3 quick, 4 thorough) x body kind {none, replayable, one-shot} x MaxRetry {0,1,2}, concrete status / size / how much of the body the server reads before answering / token-service script drawn from the seed; " +
+		"of length 1..L (L=4 quick, 5 thorough) x body kind {none, replayable, one-shot} x MaxRetry {0,1,2}, concrete status / size / how much of the body the server reads before answering / token-service script drawn from the seed; " +
 		"rand, cancel, repo phases: seeded random scripts (<=6 target + <=3 token-service outcomes), 10 body kinds, sizes 0..1 MiB, 4 credential kinds, 3 caches, 1-2 calls per client, remote.Repository blob/manifest pushes; " +
 		"policy phase: parameter cells (attempt bucket x jitter x factor x backoff x outcome x bounds), several points per cell (all cells in thorough); " +
 		"oracle per call: bytes received on every attempt == original body (or the prefix the server chose to read), <= MaxRetry+1 attempts per send, no attempt after a non-retryable answer, result is the last response or an error, " +
@@ -63,12 +63,12 @@ func main() {
 	r.Set("enum_script_max_len", L)
 	r.Set("enum_scripts", enumScripts(L))
 	r.Set("enum_phase_exhaustive", true)
-	worker.Run(r, worker.Opts{Phase: "rand", Total: r.N(1500, 40000), Batch: 100, Timeout: 15 * time.Minute})
-	worker.Run(r, worker.Opts{Phase: "cancel", Total: r.N(300, 6000), Batch: 50, Timeout: 15 * time.Minute})
-	worker.Run(r, worker.Opts{Phase: "repo", Total: r.N(600, 12000), Batch: 100, Timeout: 15 * time.Minute})
-	worker.Run(r, worker.Opts{Phase: "policy", Total: r.N(1000, policyCells()), Batch: 500, Timeout: 15 * time.Minute})
+	worker.Run(r, worker.Opts{Phase: "rand", Total: r.N(5000, 200000), Batch: 100, Timeout: 15 * time.Minute})
+	worker.Run(r, worker.Opts{Phase: "cancel", Total: r.N(1000, 30000), Batch: 50, Timeout: 15 * time.Minute})
+	worker.Run(r, worker.Opts{Phase: "repo", Total: r.N(2000, 60000), Batch: 100, Timeout: 15 * time.Minute})
+	worker.Run(r, worker.Opts{Phase: "policy", Total: r.N(4000, policyCells()), Batch: 500, Timeout: 15 * time.Minute})
 	r.Set("policy_cells_total", policyCells())
-	r.Finish(r.N(300, 5000))
+	r.Finish(r.N(3000, 40000))
 }
 
 func runCase(phase string, i int) worker.Result {
